@@ -412,6 +412,11 @@ class C07(SolveProperty):
 
     def pick_args(self, rng, labels):
         out = SolveProperty.pick_args(self, rng, labels)
+        if labels:
+            a = rng.choice(labels)
+            out.append([a, a])                       # the same argument twice
+            if len(labels) <= 7:
+                out.append(list(labels))             # every argument of the framework
         if 2 <= len(labels) <= 9:
             pairs = [[a, b] for a in labels for b in labels if a != b]
             out += rng.sample(pairs, min(len(pairs), 10))
